@@ -72,6 +72,9 @@ def unwrap_iterable(t: Type) -> Type:
         return Any  # type: ignore
 
     a = get_args(t)
+    if len(a) == 0:
+        # A bare `Iterable` (no parameter): nothing is known about the items.
+        return Any  # type: ignore
     assert len(a) == 1, f"Coding error - expected iterable type with a parameter, got {t}"
     return a[0]
 
